@@ -73,6 +73,17 @@ Fixpoint matches (ci : bool) (r : re) (s : list ascii) : bool :=
   | c :: s' => matches ci (deriv ci c r) s'
   end.
 
+(* ---- the language of a regular expression (specification of the matcher; Star uses non-empty pieces) *)
+Fixpoint lang (ci : bool) (r : re) (s : list ascii) : Prop :=
+  match r with
+  | Empty => False
+  | Eps => s = []
+  | Chr cs => exists c, s = [c] /\ cs_match ci cs c = true
+  | Cat a b => exists s1 s2, s = s1 ++ s2 /\ lang ci a s1 /\ lang ci b s2
+  | Alt a b => lang ci a s \/ lang ci b s
+  | Star a => exists ss, s = concat ss /\ Forall (fun x => x <> [] /\ lang ci a x) ss
+  end.
+
 (* ---- parser for the literal syntax *)
 Fixpoint rep (n : nat) (r : re) : re := match n with O => Eps | S k => Cat r (rep k r) end.
 (* r{m,n} = r^m (r?)^(n-m) *)
